@@ -2410,3 +2410,16 @@ V('c11-subs-no-linebreak-guard', 'C11', 'R11.7', MAILDIRMBX,
             # the subscriptions file holds one name per line
             raise NotSupportedError('Invalid mailbox name.')
 ''', '')
+V('c06-number-int-unguarded', 'C06', 'R6.2', PRIM,
+  '''        try:
+            num = int(match.group(0))
+        except ValueError as exc:
+            raise NotParseable(buf) from exc
+        return cls(num), buf[match.end(0):]''',
+  '''        return cls(int(match.group(0))), buf[match.end(0):]''')
+V('c06-literal-plus-unbounded-digits', 'C06', 'R6.10', IMAPINIT,
+  "_literal_plus = re.compile(br'{(\\d{1,20})\\+}\\r?\\n$')",
+  "_literal_plus = re.compile(br'{(\\d+)\\+}\\r?\\n$')")
+V('c06-literal-plus-twin-10-digits', 'C06', 'R6.10', IMAPINIT,
+  "_literal_plus = re.compile(br'{(\\d{1,20})\\+}\\r?\\n$')",
+  "_literal_plus = re.compile(br'{(\\d{1,10})\\+}\\r?\\n$')", expect='silent')
